@@ -924,7 +924,30 @@ func (o *Oracle) onHandled(inc *Inc, m *Msg) {
 						m.Dst, req.Term, cand, req.LastLogIndex, req.LastLogTerm, f.lastIdx, f.lastTerm)
 					v.Facts["duplicate_vote_record"] = fmt.Sprint(f.voteTerm == req.Term || o.prevVoteCand(inc, cand))
 				}
-				if len(f.cfg.Servers) > 0 && len(req.ID) > 0 && !isVoter(f.cfg, raft.ServerID(req.ID)) {
+				// the request waits in the voter's queue behind whatever it is busy with (entries, an
+				// InstallSnapshot): the configuration that counts is the one it holds when it handles
+				// the request, i.e. one of those it held between delivery and this response
+				voterSomewhen := func() bool {
+					cid := raft.ServerID(req.ID)
+					if isVoter(f.cfg, cid) {
+						return true
+					}
+					if inc.r != nil {
+						if _, _, latest, _ := inc.r.VerifConfigurations(); isVoter(latest, cid) {
+							return true
+						}
+					}
+					for k, h := range inc.cfgHist {
+						if k+1 < len(inc.cfgHist) && inc.cfgHist[k+1].seq < m.DelivSeq {
+							continue
+						}
+						if isVoter(h.cfg, cid) {
+							return true
+						}
+					}
+					return false
+				}
+				if len(f.cfg.Servers) > 0 && len(req.ID) > 0 && !voterSomewhen() {
 					w.violate("C06", "C06/vote-for-non-voter", "s%d grants its vote in term %d to %s, which is not a voter in its configuration {%s}", m.Dst, req.Term, cand, idsOf(f.cfg))
 				}
 			}
